@@ -9,12 +9,15 @@ from lib import common as C
 PROP = "C18"
 PROPS_FILES = ["Props/C18.v"]
 ASSUMPTIONS = [
-  "exact arithmetic over Q: coordinates are small integers / dyadic rationals, parameter widths are powers of two and the relaxed "
-  "dimension is a perfect square when categoricals are present, so every squared distance the implementation computes is exact",
+  "exact arithmetic over Q: coordinates are small integers / dyadic rationals (down to multiples of 2^-34 for nearly coincident "
+  "observations), parameter widths are powers of two and the relaxed dimension is a perfect square when categoricals are present; "
+  "the generator keeps a case only when every squared distance the implementation computes is exact in double (all terms of "
+  "|x|^2 + |z|^2 - 2 x.z multiples of one granule and their total below 2^53 granules)",
   "the code compares squared distances only; argmax/argmin of a distance and of its square coincide (x -> x^2 is increasing on x >= 0), "
   "so 'farthest' and 'nearest' are stated on squared distances",
   "scaled values: v -> negate*scale*(v - midpoint) with one positive double `scale` is injective and order preserving on the few-bit "
-  "values generated (ties stay ties, distinct values stay distinct), so comparisons on doubles and on the exact rationals of the model agree",
+  "values generated (ties stay ties, distinct values stay distinct - also for the nearly tied values base + j 2^-30, whose differences from "
+  "the midpoint are exact in double by Sterbenz), so comparisons on doubles and on the exact rationals of the model agree",
   "one optimised metric, no task costs (the endpoint asserts that no Pareto optimisation is required); finite values",
   "'overall best observation' is read on the scaled values (failures carry the lie value), see LEVEL_NOTE",
 ]
@@ -91,6 +94,73 @@ def one_hot_dim(comps):
 # ------------------------------------------------------------------------------------------ generators
 
 
+U53 = Fraction(1, 2 ** 53)
+
+
+def _dyadic(q):
+  return q.denominator & (q.denominator - 1) == 0
+
+
+def _is_double(q):
+  """the rational q is a double"""
+  try:
+    return Fraction(float(q)) == q
+  except OverflowError:
+    return False
+
+
+def exact_in_double(rows):
+  """Sufficient condition for sum(x**2) + sum(z**2) - 2 x.z being computed WITHOUT ANY ROUNDING for every pair of the given
+  rows (Fractions), whatever the order of summation (NumPy pairwise sums, BLAS dot): all terms x_k^2, z_k^2, 2 x_k z_k of a pair are
+  multiples of one granule g = 2^-G and the sum of their magnitudes is below 2^53 g, so every partial sum is a multiple of g
+  of magnitude < 2^53 g, hence a double."""
+  for r in rows:
+    if not all(_dyadic(x) for x in r):
+      return False
+  sq = [[x * x for x in r] for r in rows]
+  for i, a in enumerate(rows):
+    for j in range(i, len(rows)):
+      b = rows[j]
+      terms = [t for t in sq[i] + sq[j] + [2 * x * z for x, z in zip(a, b)] if t != 0]
+      if not terms:
+        continue
+      den = max(t.denominator for t in terms)          # powers of two: the largest denominator is the granule
+      if sum(abs(t) for t in terms) * den >= 2 ** 53:
+        return False
+  return True
+
+
+def search_rows(inp):
+  """The search-space rows of a view input as exact rationals, or None when some step of the normalisation
+  (x - lower) / (upper - lower) rounds in double arithmetic or sqrt(one_hot_dim) is not an integer."""
+  comps = inp["components"]
+  D = one_hot_dim(comps)
+  has_cat = any(c["var_type"] == "categorical" for c in comps)
+  r = math.isqrt(D)
+  if has_cat and r * r != D:
+    return None
+  rows = []
+  for p in inp["points"]:
+    row = []
+    for x, c in zip(p, comps):
+      e = c["elements"]
+      if c["var_type"] == "categorical":
+        row += [Fraction(r) if x == el else Fraction(0) for el in e]
+        continue
+      lo, hi = Fraction(min(e)), Fraction(max(e))
+      num, den = Fraction(x) - lo, hi - lo
+      if den == 0 or not (_is_double(num) and _is_double(den) and _is_double(num / den)):
+        return None
+      row.append(num / den)
+    rows.append(row)
+  return rows
+
+
+def view_is_exact(inp):
+  rows = search_rows(inp)
+  return rows is not None and exact_in_double(rows)
+
+
 def gen_points_grid(rng, n, dim):
   hi = rng.choice([1, 2, 4, 8])
   half = rng.random() < 0.3
@@ -104,9 +174,36 @@ def gen_points_grid(rng, n, dim):
   return pts
 
 
+# spacings of nearly coincident observations, normalised units: 2^-20 ~ 9.5e-7 ... 2^-34 ~ 5.8e-11 (squared: 9.1e-13 ... 3.4e-21)
+FINE_EXPONENTS = [20, 20, 21, 22, 23, 24, 25, 27, 30, 34]
+
+
+def gen_points_coincident(rng, n, dim):
+  """Nearly coincident points: `groups` far-apart locations (multiples of 1/8), every point sits at a location plus a few
+  multiples of 2^-e per coordinate.  Returns (points, number of groups) with every squared distance exact in double
+  (exact_in_double), or None."""
+  for _ in range(8):
+    e = rng.choice(FINE_EXPONENTS)
+    if rng.random() < 0.25:  # the whole set inside one tiny neighbourhood of the origin: small integers times 2^-e
+      pts = [[x * 2.0 ** -e for x in p] for p in gen_points_grid(rng, n, dim)]
+      groups = 1
+    else:
+      groups = rng.randint(1, min(3, n - 1))
+      bases = [[rng.choice([0, 0, 0.5, 1, 0.125, 0.75, -0.5, 1.5]) for _ in range(dim)] for _ in range(groups)]
+      pts = []
+      for i in range(n):
+        g = 0 if (i < 3 or rng.random() < 0.4) else rng.randrange(groups)
+        pts.append([b + rng.choice([0, 0, 1, -1, 2, 3, -3, 4, 7]) * 2.0 ** -e for b in bases[g]])
+      rng.shuffle(pts)
+    if exact_in_double([[Fraction(x) for x in p] for p in pts]):
+      return pts, groups
+  return None
+
+
 def gen_kc(rng, malformed=False):
   n, dim = rng.randint(2, 12), rng.randint(1, 4)
   pts = gen_points_grid(rng, n, dim)
+  groups = None
   if rng.random() < 0.08:
     pts = [list(pts[0]) for _ in range(n)]  # all points equal
   if rng.random() < 0.12 and n >= 3:
@@ -115,7 +212,14 @@ def gen_kc(rng, malformed=False):
     e = 2.0 ** -rng.choice([27, 28, 30, 34, 40])
     pts = [[0.0] * dim, [1.0] + [0.0] * (dim - 1), [0.5 + rng.choice([-1, 1]) * e] + [0.0] * (dim - 1)] + [[rng.choice([0.25, 0.75, 2.0, -1.0 + e])] + [0.0] * (dim - 1)
                                                                                                                for _ in range(n - 3)]
+  elif rng.random() < 0.2 and n >= 4:
+    # several NEARLY COINCIDENT points (spacing 2^-20 .. 2^-34: squared distances far below 1e-12, exact in double)
+    got = gen_points_coincident(rng, n, dim)
+    if got:
+      pts, groups = got
   first, k = rng.randrange(n), rng.randint(1, n - 1)
+  if groups is not None and rng.random() < 0.8:  # more centres than far-apart groups: centres are chosen among the coincident points
+    k = rng.randint(min(groups + 1, n - 1), n - 1)
   if malformed:
     first, k = rng.choice([(first, 0), (first, n), (first, n + 2), (n, k), (n + 3, k)])
   return dict(points=pts, first=first, k=k)
@@ -158,8 +262,40 @@ def gen_point(rng, comps):
   return p
 
 
+def out_of_bounds_value(rng, c):
+  """A value of the right type outside the CURRENT bounds of a numeric parameter (the bounds were tightened, or elements of a
+  quantized parameter removed, after the observation had been reported): up to two widths out, a multiple of width/8."""
+  t, e = c["var_type"], c["elements"]
+  lo, hi = min(e), max(e)
+  w = hi - lo
+  if t == "int":
+    return rng.choice([rng.randint(lo - 2 * w, lo - 1), rng.randint(hi + 1, hi + 2 * w)])
+  j = rng.choice([rng.randint(-16, -1), rng.randint(9, 24)])
+  return lo + w * j / 8
+
+
+# nearly tied values: base + sign * j * 2^-30 (2^-30 ~ 9.3e-10).  (max - min) / 2 < 1e-8  <=>  spread <= 21 * 2^-30, so j <= 21 enters
+# the degenerate-scale branch of SingleMetricMidpointInfo and j >= 22 does not; inside it, min(|max|, |min|) > 1 selects
+# scale = 1 / max(|min|, |max|), midpoint = min, otherwise scale = 1, midpoint = 0.
+TIE_STEP = 2.0 ** -30
+TIE_BASES = [-5, -5, -3, -2, -1.5, -1, -1, -0.5, 0, 0.5, 1, 1, 1.5, 2, 5, 5, 1000, -1000]
+
+
+def gen_values_near_tied(rng, n):
+  base = rng.choice(TIE_BASES)
+  sign = rng.choice([1, -1])
+  jmax = rng.choice([3, 7, 7, 15, 21, 21, 22, 24, 40])
+  js = [rng.randint(0, jmax) for _ in range(n)]
+  if rng.random() < 0.5:
+    js[rng.randrange(n)] = jmax
+    js[rng.randrange(n)] = 0
+  if base == 0 and rng.random() < 0.5:  # mixed signs around 0
+    return [rng.choice([1, -1]) * j * TIE_STEP for j in js]
+  return [base + sign * j * TIE_STEP for j in js]
+
+
 def gen_values(rng, n):
-  style = rng.choice(["ints", "ints", "tight", "halves", "const", "const_small", "two"])
+  style = rng.choice(["ints", "ints", "tight", "halves", "const", "const_small", "two", "near", "near"])
   if style == "ints":
     v = [rng.randint(-6, 6) for _ in range(n)]
   elif style == "tight":
@@ -170,16 +306,61 @@ def gen_values(rng, n):
     v = [rng.choice([-3, 2, 5])] * n
   elif style == "const_small":
     v = [rng.choice([0, 0.5, -1, 1])] * n
+  elif style == "near":
+    v = gen_values_near_tied(rng, n)
   else:
     a, b = rng.randint(-4, 4), rng.randint(-4, 4)
     v = [rng.choice([a, b]) for _ in range(n)]
   return v
 
 
+def gen_view_points(rng, comps, n, geo):
+  """Observed configurations.  geo: 'grid' (inside the bounds, multiples of width/8), 'oob' (some numeric coordinates outside the
+  current bounds), 'coincident' (groups of nearly coincident observations: double parameters differ by a few multiples of
+  width * 2^-e), 'oob+coincident'.  Returns (points, number of far-apart groups or None)."""
+  doubles = [j for j, c in enumerate(comps) if c["var_type"] == "double"]
+  groups = None
+  if "coincident" in geo and doubles:
+    groups = rng.randint(1, min(3, n - 1))
+    bases = [gen_point(rng, comps) for _ in range(groups)]
+    if "oob" in geo:
+      for b in bases:
+        for j, c in enumerate(comps):
+          if c["var_type"] != "categorical" and rng.random() < 0.4:
+            b[j] = out_of_bounds_value(rng, c)
+    e = rng.choice(FINE_EXPONENTS)
+    pts = []
+    for i in range(n):
+      g = 0 if (i < 3 or rng.random() < 0.4) else rng.randrange(groups)
+      p = list(bases[g])
+      for j in doubles:
+        w = comps[j]["elements"][1] - comps[j]["elements"][0]
+        p[j] = p[j] + w * rng.choice([0, 0, 1, -1, 2, 3, -3, 4, 7]) * 2.0 ** -e
+      pts.append(p)
+    rng.shuffle(pts)
+    return pts, groups
+  pts = [gen_point(rng, comps) for _ in range(n)]
+  if "oob" in geo:
+    numeric = [j for j, c in enumerate(comps) if c["var_type"] != "categorical"]
+    for _ in range(rng.randint(1, max(1, n // 2))):
+      if numeric:
+        j = rng.choice(numeric)
+        pts[rng.randrange(n)][j] = out_of_bounds_value(rng, comps[j])
+  return pts, groups
+
+
 def gen_view(rng, malformed=False, square=True):
   comps = gen_domain(rng, square)
   n = rng.randint(3, 10)
-  base = [gen_point(rng, comps) for _ in range(n)]
+  geo = rng.choice(["grid"] * 5 + ["oob"] * 2 + ["coincident"] * 2 + ["oob+coincident"])
+  if "coincident" in geo and n < 4:
+    n = rng.randint(4, 10)
+  for _ in range(8):  # the correspondence compares exactly: keep only histories whose squared distances are exact in double
+    base, groups = gen_view_points(rng, comps, n, geo)
+    if not square or view_is_exact(dict(components=comps, points=base)):
+      break
+  else:
+    base, groups = gen_view_points(rng, comps, n, "grid")
   for _ in range(rng.randint(0, n // 2)):  # duplicated configurations
     base[rng.randrange(n)] = list(base[rng.randrange(n)])
   pf = rng.choice([0, 0, 0.3, 0.7, 1.0])
@@ -188,6 +369,8 @@ def gen_view(rng, malformed=False, square=True):
     failures = [True] * n
     failures[rng.randrange(n)] = False
   k = rng.randint(2, n - 1)
+  if groups is not None and rng.random() < 0.8:  # more solutions than far-apart groups
+    k = rng.randint(min(max(2, groups + 1), n - 1), n - 1)
   if malformed:
     k = rng.choice([0, 1, n, n + 1])
   m = rng.choice([1, 1, 2, 3])
@@ -222,22 +405,58 @@ def coq_case(kind, inp, out):
           f"{C.listlit(inp['values'], C.qlit)} {C.listlit(inp['failures'], C.blit)} {C.blit(inp['maximize'])} {C.nlit(inp['k'])} {o}")
 
 
+def _spread_class(vals):
+  """which branch of the midpoint normalisation the successful values enter"""
+  if not vals:
+    return "values:no-success"
+  mn, mx = min(vals), max(vals)
+  if mx == mn:
+    return "values:all-equal"
+  if (mx - mn) * 0.5 >= 1e-8:
+    return "values:ordinary-spread" if mx - mn > 1e-6 else "values:nearly-tied:ordinary-branch"
+  if min(abs(mx), abs(mn)) > 1:
+    return "values:nearly-tied:degenerate-scale:" + ("below-minus-1" if mx < 0 else "above-plus-1")
+  return "values:nearly-tied:degenerate-unit-scale"
+
+
+def _min_gap2(rows):
+  """least non-zero squared distance between two rows"""
+  best = None
+  for i, a in enumerate(rows):
+    for b in rows[i + 1:]:
+      d = sum((Fraction(x) - Fraction(y)) ** 2 for x, y in zip(a, b))
+      if d != 0 and (best is None or d < best):
+        best = d
+  return best
+
+
 def features(kind, inp, out):
   f = [kind, "error" if out is None else "ok"]
   if kind == "kc":
     pts = [tuple(p) for p in inp["points"]]
     f.append("dup-points" if len(set(pts)) < len(pts) else "distinct-points")
     f.append("k>distinct-locations" if inp["k"] > len(set(pts)) else "k<=distinct-locations")
+    g = _min_gap2(inp["points"])
+    if g is not None and g < Fraction(1, 10 ** 12):
+      f.append("nearly-coincident-points(d2<1e-12)")
   else:
     f.append("categorical" if any(c["var_type"] == "categorical" for c in inp["components"]) else "numeric-only")
     fl = inp["failures"]
     f.append("all-failed" if all(fl) else "some-failed" if any(fl) else "no-failed")
     ok = [v for v, b in zip(inp["values"], fl) if not b]
     f.append("successes-all-tied" if ok and len(set(ok)) == 1 else "tied-values" if len(set(inp["values"])) < len(fl) else "distinct-values")
+    f.append(_spread_class(ok))
     pts = [tuple(p) for p in inp["points"]]
     f.append("dup-points" if len(set(pts)) < len(pts) else "distinct-points")
     f.append("maximize" if inp["maximize"] else "minimize")
     f.append("stored-metrics" if inp.get("num_metrics", 1) > 1 else "single-metric")
+    if any(c["var_type"] != "categorical" and not min(c["elements"]) <= p[j] <= max(c["elements"])
+           for p in inp["points"] for j, c in enumerate(inp["components"])):
+      f.append("observation-outside-bounds")
+    rows = search_rows(inp)
+    g = _min_gap2(rows) if rows else None
+    if g is not None and g < Fraction(1, 10 ** 12):
+      f.append("nearly-coincident-observations(d2<1e-12)")
   return f
 
 
@@ -270,10 +489,15 @@ def correspondence(ctx):
   dis += [dict(what=f"C18 correspondence case {i} ({meta[i][0]}): implementation output differs from Model.KCenter / its specification",
                kind=meta[i][0], input=meta[i][1], observed=meta[i][2]) for i in bad]
   return dict(evaluations=n, distinct_nontrivial=nontriv,
-              rule="k_center_clustering on <=12 points in <=4 dimensions (small integers / halves, forced duplicates, all-equal sets, every first "
-                   "index and 1<=k<n) and the whole endpoint on mixed domains (double/int/quantized with power-of-two widths, up to two "
-                   "categoricals, relaxed dimension 4/9/16 when categorical) with 3..10 observations, duplicated configurations, tied / constant "
-                   "values, zero/some/all failures, both objectives, stored metrics beside the optimised one, every 2<=k<n; a malformed stream "
+              rule="k_center_clustering on <=12 points in <=4 dimensions (small integers / halves, forced duplicates, all-equal sets, almost "
+                   "equidistant candidates, nearly coincident points with spacings 2^-20..2^-34 around up to three far-apart locations and k "
+                   "above the number of locations, every first index and 1<=k<n) and the whole endpoint on mixed domains (double/int/quantized "
+                   "with power-of-two widths, up to two categoricals, relaxed dimension 4/9/16 when categorical) with 3..10 observations, "
+                   "duplicated configurations, observations outside the current bounds of numeric parameters (up to two widths), groups of "
+                   "nearly coincident observations on the double parameters, tied / constant / nearly tied values (steps of 2^-30 around "
+                   "-1000..1000: both sub-branches of the degenerate-scale branch and the 1e-8 half-width boundary), zero/some/all failures, "
+                   "both objectives, stored metrics beside the optimised one, every 2<=k<n; every squared distance of every case is exact in "
+                   "double (checked per case: all terms multiples of one granule, total below 2^53 granules); a malformed stream "
                    "(k in {0,1,n,n+1}, first index out of range) for the assertion branches; non-trivial = the implementation returned a "
                    "result for k>=2; distinct by hash of the canonical input",
               samples=[dict(kind=k, input=i, impl_output=o) for k, i, o in meta[:3]], distribution=dist, disagreements=dis)
@@ -291,8 +515,25 @@ def _d2(a, b):
   return sum((x - y) ** 2 for x, y in zip(a, b))
 
 
-def _near(a, b, scale):
-  return abs(a - b) <= Fraction(1, 10 ** 9) * max(1, scale)
+def _err_const(dim):
+  """Rounding of the squared distance fmax(0, |x|^2 + |z|^2 - 2 x.z) in double: the three sums carry at most dim roundings each on
+  terms bounded by |x|^2 + |z|^2, two more additions follow, and each normalised coordinate (x - lower) / (upper - lower) carries
+  three roundings (relative 3u, i.e. at most 12u (|x|^2 + |z|^2) on the squared distance; sqrt(one_hot_dim) one more):
+  |computed - exact| <= (2 dim + 15) u (|x|^2 + |z|^2), u = 2^-53.  The oracle allows twice that."""
+  return (4 * dim + 32) * U53
+
+
+class _Dist:
+  """exact squared distances with the rounding bound of the double computation: interval [lo, hi] per pair"""
+
+  def __init__(self, d2, sq, dim, exact):
+    self.d2, self.sq, self.c = d2, sq, (Fraction(0) if exact else _err_const(dim))
+
+  def lo(self, i, j):
+    return self.d2(i, j) - self.c * (self.sq[i] + self.sq[j])
+
+  def hi(self, i, j):
+    return self.d2(i, j) + self.c * (self.sq[i] + self.sq[j])
 
 
 def oracle_kc(inp):
@@ -315,26 +556,30 @@ def oracle_kc(inp):
     return fail("first-centre", "the centres do not start at the given first index / are not k many", dict(first=first, k=k), out)
   if len(set(cs)) != k or any(not 0 <= c < n for c in cs):
     return fail("centres-not-distinct-valid", "the centres are not distinct indices in range", None, out)
-  scale = max(sum(x * x for x in p) for p in pts) + 1
+  D = _Dist(lambda i, j: _d2(pts[i], pts[j]), [sum(x * x for x in p) for p in pts], len(pts[0]) if pts else 0, exact_in_double(pts))
   for i in range(1, k):
     pre = cs[:i]
-    md = {t: min(_d2(pts[c], pts[t]) for c in pre) for t in range(n) if t not in pre}
-    best = max(md.values())
-    if md[cs[i]] < best and not _near(md[cs[i]], best, scale):
+    rest = [t for t in range(n) if t not in pre]
+    md_lo = {t: min(D.lo(c, t) for c in pre) for t in rest}
+    md_hi = {t: min(D.hi(c, t) for c in pre) for t in rest}
+    best = max(md_lo.values())
+    if md_hi[cs[i]] < best:   # certainly not a farthest point, whatever the rounding did
       return fail("next-centre-not-farthest", f"centre {i} (index {cs[i]}) is not at maximal distance from the chosen centres",
-                  dict(max_sq_distance=float(best), attained_by=[t for t in md if md[t] == best]), out)
+                  dict(max_sq_distance=float(best), attained_by=[t for t in rest if md_lo[t] == best]), out)
   if len(part) != n or any(not 0 <= p < k for p in part):
     return fail("partition-shape", "the partition is not one cluster label in range per point", None, out)
   for t in range(n):  # centres included: a centre's nearest centre is itself or one at the same location
-    ds = [_d2(pts[c], pts[t]) for c in cs]
-    if ds[part[t]] > min(ds) and not _near(ds[part[t]], min(ds), scale):
+    nearest = min(D.hi(c, t) for c in cs)
+    if D.lo(cs[part[t]], t) > nearest:
+      ds = [_d2(pts[c], pts[t]) for c in cs]
       return fail("partition-not-nearest", f"point {t} is assigned to centre {part[t]} which is not a nearest centre", ds.index(min(ds)), out)
   return None
 
 
 def _search_coords(inp):
-  """Own statement of the normalised search space: numeric coordinates scaled to [0,1]; two points differing in a
-  categorical parameter get 2*one_hot_dim added to their squared distance (each of the two one-hot slots is sqrt(dim))."""
+  """Own statement of the normalised search space: numeric coordinates scaled by (x - lower) / (upper - lower) (NOT clipped: an
+  observation outside the current bounds keeps its distance); two points differing in a categorical parameter get
+  2*one_hot_dim added to their squared distance (each of the two one-hot slots is sqrt(dim)).  Returns the distance object."""
   comps = inp["components"]
   D = one_hot_dim(comps)
   num, cat = [], []
@@ -351,10 +596,8 @@ def _search_coords(inp):
     cat.append(b)
   def d2(i, j):
     return _d2(num[i], num[j]) + 2 * D * sum(1 for x, y in zip(cat[i], cat[j]) if x != y)
-  has_cat = any(c["var_type"] == "categorical" for c in comps)
-  dyadic = all(q.denominator & (q.denominator - 1) == 0 and q.denominator <= 1024 for a in num for q in a)
-  exact = dyadic and (not has_cat or math.isqrt(D) ** 2 == D)
-  return d2, exact, len(num[0]) + 2 * D * len(cat[0]) + 1
+  sq = [sum(x * x for x in a) + D * len(b) for a, b in zip(num, cat)]
+  return _Dist(d2, sq, D, view_is_exact(inp))
 
 
 def oracle_view(inp):
@@ -383,36 +626,41 @@ def oracle_view(inp):
     eff = [lie if fails[i] else raw[i] for i in range(n)]
   else:
     eff = [Fraction(0)] * n
+  # The rescaling v -> negate * scale * (v - midpoint) is monotone in double arithmetic (a subtraction of one constant and a
+  # multiplication by one positive constant, both monotone under rounding), so a better raw value never gets a worse scaled
+  # value; two DISTINCT raw values can collapse to one scaled value only when they differ by a few ulps of the largest
+  # magnitude involved (|v| or |midpoint| <= max |v|): such pairs are undecidable, everything else is decided.
+  vtol = 8 * U53 * max([abs(raw[i]) for i in succ] or [Fraction(0)])
   best = min(eff)
-  if not any(eff[i] == best for i in out):
+  if not any(eff[i] - best <= vtol for i in out):
     return fail("overall-best-missing", "no returned index attains the best value", [i for i in range(n) if eff[i] == best], out)
-  # every value comparison below must be robust to the rounding of the affine rescaling: values that are distinct but
-  # closer than 1e-9 relative are treated as undecidable
   vs = sorted(set(eff))
-  spread = max(1, max(abs(v) for v in vs))
-  fuzzy_vals = any(b - a <= Fraction(1, 10 ** 9) * spread for a, b in zip(vs, vs[1:]))
-  d2, exact, scale = _search_coords(inp)
+  fuzzy_vals = any(b - a <= vtol for a, b in zip(vs, vs[1:]))
+  D = _search_coords(inp)
 
   def clusters_from(f):
-    """Farthest-first clusters started at f, or None when some choice is tied / nearly tied (the property fixes no tie rule
-    and doubles may order near-ties differently)."""
+    """Farthest-first clusters started at f, or None when some choice is tied or within the rounding of the double computation
+    (the property fixes no tie rule and doubles may order such candidates either way)."""
     cs = [f]
     for _ in range(1, k):
-      md = {t: min(d2(c, t) for c in cs) for t in range(n) if t not in cs}
-      mx = max(md.values())
-      if len([t for t in md if md[t] == mx or _near(md[t], mx, scale)]) > 1:
+      rest = [t for t in range(n) if t not in cs]
+      md_lo = {t: min(D.lo(c, t) for c in cs) for t in rest}
+      md_hi = {t: min(D.hi(c, t) for c in cs) for t in rest}
+      top = max(md_lo.values())
+      cand = [t for t in rest if md_hi[t] >= top]
+      if len(cand) > 1:
         return None
-      cs.append(max(md, key=lambda t: md[t]))
+      cs.append(cand[0])
     part = []
     for t in range(n):
       if t in cs:
         part.append(cs.index(t))
         continue
-      ds = [d2(c, t) for c in cs]
-      mn = min(ds)
-      if len([j for j in range(k) if ds[j] == mn or _near(ds[j], mn, scale)]) > 1:
+      near = min(D.hi(c, t) for c in cs)
+      cand = [j for j in range(k) if D.lo(cs[j], t) <= near]
+      if len(cand) > 1:
         return None
-      part.append(ds.index(mn))
+      part.append(cand[0])
     return cs, part
 
   if not fuzzy_vals:
@@ -444,7 +692,7 @@ def oracle_view(inp):
   # strict reading of 'the overall best observation': a successful observation with the best raw value is returned
   if REPORT_STRICT_OVERALL_BEST and succ:
     braw = min(raw[i] for i in succ)
-    if not any((not fails[i]) and raw[i] == braw for i in out):
+    if not any((not fails[i]) and raw[i] - braw <= vtol for i in out):
       r = fail(KNOWN_SIG, "every successful observation has the same value, so failed observations (carrying the lie value) tie with them; "
                "the first such index is taken as the best and no best successful observation is returned",
                [i for i in succ if raw[i] == braw], out)
@@ -467,7 +715,21 @@ def gen_float_kc(rng):
   pts = [[off + round(rng.gauss(0, 1), rng.choice([1, 3, 9])) * scale for _ in range(dim)] for _ in range(n)]
   for _ in range(rng.randint(0, n // 3)):
     pts[rng.randrange(n)] = list(pts[rng.randrange(n)])
-  return dict(points=pts, first=rng.randrange(n), k=rng.randint(1, n - 1))
+  k = rng.randint(1, n - 1)
+  if rng.random() < 0.25 and n >= 5:
+    # nearly coincident points (spacing 1e-6 .. 1e-9, not dyadic) around a few far-apart locations, more centres than locations.
+    # Around the origin the expansion |x|^2 + |z|^2 - 2 x.z has no cancellation and every spacing is decided; around a location
+    # of size 1 squared distances below ~1e-14 drown in the rounding and the oracle calls those choices undecided.
+    groups = rng.randint(1, min(3, n - 2))
+    sp = 10.0 ** -rng.uniform(6.0, 9.3)
+    bases = [[0.0] * dim if (g == 0 and rng.random() < 0.5) else [round(rng.uniform(-1, 2), 2) for _ in range(dim)] for g in range(groups)]
+    pts = []
+    for i in range(n):
+      g = 0 if (i < 3 or rng.random() < 0.4) else rng.randrange(groups)
+      pts.append([x + sp * round(rng.uniform(-4, 4), 1) for x in bases[g]])
+    rng.shuffle(pts)
+    k = rng.randint(min(groups + 1, n - 1), n - 1)
+  return dict(points=pts, first=rng.randrange(n), k=k)
 
 
 def gen_float_view(rng):
@@ -486,8 +748,7 @@ def gen_float_view(rng):
       comps.append(dict(var_type=t, elements=sorted(set(round(rng.uniform(-5, 5), 1) for _ in range(rng.randint(3, 6))) | {-6.5, 7.25})))
   rng.shuffle(comps)
   n = rng.randint(3, 30)
-  pts = []
-  for _ in range(n):
+  def point():
     p = []
     for c in comps:
       e = c["elements"]
@@ -497,16 +758,62 @@ def gen_float_view(rng):
         p.append(rng.randint(e[0], e[1]))
       else:
         p.append(round(rng.uniform(e[0], e[1]), 3))
-    pts.append(p)
+    return p
+  pts = [point() for _ in range(n)]
+  k = rng.randint(2, n - 1)
+  doubles = [j for j, c in enumerate(comps) if c["var_type"] == "double"]
+  geo = rng.random()
+  if geo < 0.2 and doubles and n >= 5:
+    # nearly coincident observations (late stage of an optimisation): spacing 1e-6 .. 1e-9 in normalised units on the double
+    # parameters, a few far-apart groups, more solutions than groups; half of the time the first group sits at the lower bounds
+    # (normalised origin: no cancellation in the distance expansion, every spacing is decided)
+    groups = rng.randint(1, min(3, n - 2))
+    sp = 10.0 ** -rng.uniform(6.0, 9.3)
+    bases = [point() for _ in range(groups)]
+    if rng.random() < 0.5:
+      for j, c in enumerate(comps):
+        if c["var_type"] != "categorical":
+          bases[0][j] = min(c["elements"])
+    pts = []
+    for i in range(n):
+      g = 0 if (i < 3 or rng.random() < 0.4) else rng.randrange(groups)
+      p = list(bases[g])
+      for j in doubles:
+        e = comps[j]["elements"]
+        p[j] = p[j] + (e[1] - e[0]) * sp * round(rng.uniform(-4, 4), 1)
+      pts.append(p)
+    rng.shuffle(pts)
+    k = rng.randint(min(groups + 1, n - 1), n - 1)
+  elif geo < 0.45:
+    # observations outside the current bounds of numeric parameters (bounds tightened after they were reported)
+    numeric = [j for j, c in enumerate(comps) if c["var_type"] != "categorical"]
+    for _ in range(rng.randint(1, max(1, n // 3))):
+      if not numeric:
+        break
+      j = rng.choice(numeric)
+      c = comps[j]
+      lo, hi = min(c["elements"]), max(c["elements"])
+      w = hi - lo
+      out = rng.choice([lo - rng.uniform(0.05, 1.5) * w, hi + rng.uniform(0.05, 1.5) * w])
+      pts[rng.randrange(n)][j] = int(math.floor(out)) if c["var_type"] == "int" else round(out, 3)
   for _ in range(rng.randint(0, n // 3)):
     pts[rng.randrange(n)] = list(pts[rng.randrange(n)])
   scale = 10.0 ** rng.randint(-4, 4)
   off = rng.choice([0, 0, 100, -3]) * scale
   vals = [off + round(rng.gauss(0, 1), rng.choice([0, 1, 2])) * scale for _ in range(n)]
+  if rng.random() < 0.25:
+    # nearly tied values (a converged metric): spread below or just above 2e-8, i.e. inside / just outside the degenerate-scale
+    # branch of the midpoint normalisation; all below -1, all above +1, inside [-1, 1], around 0 with mixed signs
+    base = rng.choice([-5.0, -5.0, -1.5, -50.0, -1.0, -0.7, 0.0, 0.3, 1.0, 1.5, 5.0, 50.0, -1234.5])
+    step = rng.choice([1e-9, 2e-9, 3e-10, 2.5e-9, 4e-9])
+    sign = rng.choice([1, -1])
+    vals = [base + sign * step * rng.randint(0, 7) for _ in range(n)]
+    if base == 0.0 and rng.random() < 0.5:
+      vals = [rng.choice([1, -1]) * v for v in vals]
   pf = rng.choice([0, 0.2, 0.6])
   fails = [rng.random() < pf for _ in range(n)]
   m = rng.choice([1, 2])
-  return dict(components=comps, points=pts, values=vals, failures=fails, maximize=rng.random() < 0.5, k=rng.randint(2, n - 1),
+  return dict(components=comps, points=pts, values=vals, failures=fails, maximize=rng.random() < 0.5, k=k,
               num_metrics=m, opt_index=rng.randrange(m))
 
 
